@@ -32,6 +32,13 @@ func (f frame) ll(x, y float64) s2.LatLng {
 
 func (f frame) pt(x, y float64) s2.Point { return s2.PointFromLatLng(f.ll(x, y)) }
 
+// xy is the inverse of ll.
+func (f frame) xy(ll s2.LatLng) (float64, float64) {
+	y := (ll.Lat.Degrees() - f.lat0) * math.Pi / 180 * earthRadiusM
+	x := (ll.Lng.Degrees() - f.lng0) * math.Pi / 180 * earthRadiusM * math.Cos(f.lat0*math.Pi/180)
+	return x, y
+}
+
 type xy struct{ X, Y float64 }
 
 // star returns a counter-clockwise star-shaped loop of n vertices around (cx, cy): radius between rmin and rmax.
